@@ -296,3 +296,146 @@ Proof.
   intros [t [Ht1 [Ht2 E]]]. subst q. simpl. apply pos_internal; try lia.
   apply Nat.div_lt_upper_bound; [pose proof (pow2_pos t); lia|]. rewrite <- pow2_split by lia. exact Hi.
 Qed.
+
+(* ================================================================== *)
+(* Part 3: what an aggregate is worth                                  *)
+
+Lemma nth_opt_length {A} (l : list A) i : i < length l <-> nth_opt i l <> None.
+Proof.
+  revert i. induction l as [|x r IH]; intros i; simpl.
+  - split; [lia|]. intros H; exfalso; apply H; destruct i; reflexivity.
+  - destruct i; simpl. { split; [congruence|lia]. } rewrite <- IH. lia.
+Qed.
+
+Lemma nth_opt_none {A} (l : list A) i : length l <= i <-> nth_opt i l = None.
+Proof.
+  revert i. induction l as [|x r IH]; intros i; simpl.
+  - split; [|lia]. destruct i; reflexivity.
+  - destruct i; simpl. { split; [lia|congruence]. } rewrite <- IH. lia.
+Qed.
+
+Lemma nth_opt_app_l {A} (l r : list A) i : i < length l -> nth_opt i (l ++ r) = nth_opt i l.
+Proof. revert i. induction l as [|x l IH]; intros i H; simpl in *; [lia|]. destruct i; [reflexivity|]. apply IH. lia. Qed.
+
+Lemma nth_opt_app_r {A} (l r : list A) i : length l <= i -> nth_opt i (l ++ r) = nth_opt (i - length l) r.
+Proof. revert i. induction l as [|x l IH]; intros i H; simpl in *. { f_equal. lia. } destruct i; [lia|]. apply IH. lia. Qed.
+
+Lemma nth_opt_set_nth_same {A} (l : list A) i v : i < length l -> nth_opt i (set_nth i v l) = Some v.
+Proof. revert i. induction l as [|x l IH]; intros i H; simpl in *; [lia|]. destruct i; [reflexivity|]. apply IH. lia. Qed.
+
+Lemma nth_opt_set_nth_other {A} (l : list A) i j v : i <> j -> nth_opt j (set_nth i v l) = nth_opt j l.
+Proof. revert i j. induction l as [|x l IH]; intros i j H; simpl. { destruct i; reflexivity. }
+  destruct i, j; simpl; try reflexivity; try lia. apply IH. lia. Qed.
+
+Lemma set_nth_length {A} (l : list A) i v : length (set_nth i v l) = length l.
+Proof. apply update_length. Qed.
+
+Lemma skipn_skipn' {A} (l : list A) a b : skipn b (skipn a l) = skipn (a + b) l.
+Proof. revert l. induction a as [|a IH]; intros l; simpl; [reflexivity|]. destruct l; [destruct b; reflexivity|]. apply IH. Qed.
+
+Lemma firstn_add {A} (l : list A) m1 m2 : firstn (m1 + m2) l = firstn m1 l ++ firstn m2 (skipn m1 l).
+Proof. revert l. induction m1 as [|m IH]; intros l; simpl; [reflexivity|]. destruct l; simpl; [destruct m2; reflexivity|]. f_equal. apply IH. Qed.
+
+Definition seg {A} (l : list A) (a m : nat) : list A := firstn m (skipn a l).
+
+Lemma seg_split {A} (l : list A) a m1 m2 : seg l a (m1 + m2) = seg l a m1 ++ seg l (a + m1) m2.
+Proof. unfold seg. rewrite firstn_add. rewrite skipn_skipn'. reflexivity. Qed.
+
+Lemma seg_one {A} (l : list A) a v : nth_opt a l = Some v -> seg l a 1 = [v].
+Proof. unfold seg. revert a. induction l as [|x r IH]; intros a H; simpl in *. { destruct a; discriminate. }
+  destruct a; simpl in *. { congruence. } apply IH. exact H. Qed.
+
+Section Values.
+Variable f : Z -> Z -> Z.
+Variable cf : cfg.
+Hypothesis f_assoc : forall a b c, f (f a b) c = f a (f b c).
+
+Definition fold1 (l : list Z) : option Z :=
+  match l with [] => None | x :: r => Some (fold_left f r x) end.
+
+Lemma fold_left_assoc r a y : fold_left f r (f a y) = f a (fold_left f r y).
+Proof. revert y. induction r as [|z r IH]; intros y; simpl; [reflexivity|]. rewrite f_assoc. apply IH. Qed.
+
+Lemma fold1_app l1 l2 x y : fold1 l1 = Some x -> fold1 l2 = Some y -> fold1 (l1 ++ l2) = Some (f x y).
+Proof.
+  destruct l1 as [|a r1]; [discriminate|]. destruct l2 as [|b r2]; [discriminate|].
+  simpl. intros [= <-] [= <-]. f_equal. rewrite fold_left_app. simpl. apply fold_left_assoc.
+Qed.
+
+(* the value of the output an aggregate aliases *)
+Definition aval (st : store) (L : list leaf) (combs : list (option comb)) (a : agg) : option Z :=
+  src_value cf st combs (agg_src cf L combs a).
+
+(* every dense leaf has a value: [vals] lists them in dense order *)
+Definition leaf_vals (st : store) (L : list leaf) (vals : list Z) : Prop :=
+  length vals = length L /\
+  forall i lf, nth_opt i L = Some lf -> exists v, nth_opt i vals = Some v /\ slot_value st (lf_slot lf) = Some v.
+
+(* local consistency of the combine points: present exactly where both halves are
+   non-empty (right half non-empty), and then worth f of its two child aggregates *)
+Definition comb_ok (st : store) (L : list leaf) (combs : list (option comb)) (k : nat) (p : nat) : Prop :=
+  exists c x y, nth_opt p combs = Some (Some c) /\ cb_out c = Some (f x y) /\
+                aval st L combs (resolve (2 ^ k) (length L) (2 * p + 1)) = Some x /\
+                aval st L combs (resolve (2 ^ k) (length L) (2 * p + 2)) = Some y.
+
+Definition tree_ok (st : store) (L : list leaf) (combs : list (option comb)) (k : nat) : Prop :=
+  forall j u, 1 <= j -> j <= k -> u < 2 ^ (k - j) -> u * 2 ^ j + 2 ^ (j - 1) < length L ->
+              comb_ok st L combs k (pos k j u).
+
+Lemma aval_leaf st L combs vals i : leaf_vals st L vals -> i < length L ->
+  exists v, nth_opt i vals = Some v /\ aval st L combs (ALeaf i) = Some v.
+Proof.
+  intros [Hlen Hv] Hi. destruct (nth_opt i L) as [lf|] eqn:E.
+  - destruct (Hv i lf E) as [v [H1 H2]]. exists v. split; [exact H1|].
+    unfold aval, agg_src. rewrite E. exact H2.
+  - apply nth_opt_none in E. lia.
+Qed.
+
+(* The aggregate of the subtree (j, u) is the fold of f over its live leaves. *)
+Lemma aval_resolve st L combs vals k : leaf_vals st L vals -> tree_ok st L combs k ->
+  forall j u, j <= k -> u < 2 ^ (k - j) -> u * 2 ^ j < length L ->
+    aval st L combs (resolve (2 ^ k) (length L) (pos k j u)) =
+    fold1 (seg vals (u * 2 ^ j) (Nat.min (2 ^ j) (length L - u * 2 ^ j))).
+Proof.
+  intros Hvals Htree. induction j as [|j IH]; intros u H2 H3 H4.
+  - rewrite Nat.sub_0_r in H3. rewrite (resolve_leaf_level k u _ H3).
+    change (2 ^ 0) with 1 in *. rewrite Nat.mul_1_r in *.
+    destruct (u <? length L) eqn:E; [|apply Nat.ltb_ge in E; lia].
+    destruct (aval_leaf st L combs vals u Hvals H4) as [v [H5 H6]]. rewrite H6.
+    replace (Nat.min 1 (length L - u)) with 1 by lia. rewrite (seg_one vals u v H5). reflexivity.
+  - rewrite (resolve_rec k (S j) u (length L)) by lia.
+    replace (S j - 1) with j by lia.
+    set (a := u * 2 ^ S j) in *. set (n := length L) in *.
+    assert (Hu0 : 2 * u < 2 ^ (k - j)).
+    { replace (k - j) with (S (k - S j)) by lia. rewrite pow2_S. lia. }
+    assert (Ha0 : 2 * u * 2 ^ j = a) by (unfold a; rewrite pow2_S; lia).
+    assert (Ha1 : (2 * u + 1) * 2 ^ j = a + 2 ^ j) by (unfold a; rewrite pow2_S; lia).
+    pose proof (pow2_pos j) as Hpj.
+    destruct (n <=? a) eqn:E1; [apply Nat.leb_le in E1; lia|]. clear E1.
+    destruct (n =? a + 1) eqn:E2.
+    + apply Nat.eqb_eq in E2.
+      destruct (aval_leaf st L combs vals a Hvals ltac:(fold n; lia)) as [v [H5 H6]]. rewrite H6.
+      replace (Nat.min (2 ^ S j) (n - a)) with 1 by (rewrite pow2_S; lia).
+      rewrite (seg_one vals a v H5). reflexivity.
+    + apply Nat.eqb_neq in E2.
+      destruct (n <=? a + 2 ^ j) eqn:E3.
+      * apply Nat.leb_le in E3.
+        rewrite (IH (2 * u)) by lia. rewrite Ha0. fold n.
+        f_equal. f_equal. rewrite pow2_S. lia.
+      * apply Nat.leb_gt in E3.
+        destruct (Htree (S j) u ltac:(lia) H2 H3) as [c [x [y [Hc [Hout [Hx Hy]]]]]].
+        { replace (S j - 1) with j by lia. fold a. fold n. lia. }
+        unfold aval at 1. unfold agg_src. rewrite Hc. cbn [src_value]. rewrite Hc. rewrite Hout.
+        rewrite (pos_left k (S j) u) in Hx by lia. rewrite (pos_right k (S j) u) in Hy by lia.
+        replace (S j - 1) with j in * by lia. fold n in Hx, Hy.
+        rewrite (IH (2 * u)) in Hx by lia.
+        assert (Hu1 : 2 * u + 1 < 2 ^ (k - j)).
+        { replace (k - j) with (S (k - S j)) by lia. rewrite pow2_S. lia. }
+        rewrite (IH (2 * u + 1)) in Hy by (fold n; lia).
+        rewrite Ha0 in Hx. rewrite Ha1 in Hy. fold n in Hx, Hy.
+        replace (Nat.min (2 ^ j) (n - a)) with (2 ^ j) in Hx by lia.
+        replace (Nat.min (2 ^ S j) (n - a)) with (2 ^ j + Nat.min (2 ^ j) (n - (a + 2 ^ j))) by (rewrite pow2_S; lia).
+        rewrite seg_split. symmetry. apply fold1_app; assumption.
+Qed.
+
+End Values.
